@@ -98,8 +98,8 @@ def step_refine(ctx):
     out = []
     pre = ctx.pre
     op = ctx.op
-    if pre is None or op.startswith(SKIP_PREFIX):
-        return out
+    if pre is None or op.startswith(SKIP_PREFIX) or op.startswith("become("):
+        return out  # become(...): the history continues on a twin; twins are judged by C07, the later steps here
     method = op.split("(", 1)[0]
     tags = {"method": method, "raised": ctx.out.raised, "cls": pre["cls"]}
     if op.startswith("shuffle("):
